@@ -76,7 +76,7 @@ theorem C10_rem_of_roundCore (hRC : RoundCoreFact)
     · have h' : ¬ c.prec < ndigits ((aligned x y).1 / (aligned x y).2.1) := by
         show ¬ c.prec < ndigits q; omega
       rw [if_neg h'] at ho
-      rw [if_pos h, ho]
+      rw [if_pos h, ho, ← ctxRound_finite c _ rfl]
       intro hd
       exact hRC c hc _ rfl (noSys_of_delivered _ _ hd)
     · have h' : c.prec < ndigits ((aligned x y).1 / (aligned x y).2.1) := by
